@@ -476,7 +476,8 @@ def parse_facebook_url(url, allow_relative_urls=False):
     if splitted.path:
         parts = pathsplit(splitted.path)
 
-        if not parts[0].endswith(".php"):
+        # NOTE: a path made of whitespace has no segment ("facebook.com/ ")
+        if parts and not parts[0].endswith(".php"):
             return FacebookHandle(parts[0])
 
     return None
